@@ -135,6 +135,32 @@ def strip_extra_validation(p1, p2, params, effects: bool, ctor: bool = False):
     return out, len(dropped) + loops
 
 
+def compare_defaults(res, model, f, rf, qual, what, rule):
+    """A parameter default is part of the function: callers that omit the argument get it.  For every parameter that has a
+    default in BOTH the code and the reference the two constants must agree (folded by the evaluator)."""
+    from ..vn import _same_value
+    ev = Evaluator(model)
+    bad = []
+    for p_ in f.defaults:
+        if p_ not in rf.defaults:
+            continue
+        try:
+            a, b = ev._default(f, p_), ev._default(rf, p_)
+        except Exception:  # noqa
+            continue
+        if a is None or b is None:
+            if ast.dump(f.defaults[p_]) != ast.dump(rf.defaults[p_]) and (a is None) != (b is None):
+                bad.append((p_, ast.unparse(f.defaults[p_]), ast.unparse(rf.defaults[p_])))
+            continue
+        if not _same_value(a, b):
+            bad.append((p_, ast.unparse(f.defaults[p_]), ast.unparse(rf.defaults[p_])))
+    for p_, got, want in bad:
+        res.find(rule, f.qualname, f"{what}: default of `{p_}` differs from the reference", f.loc(),
+                 f"{qual}: the default `{p_}={got}` is not the reference's `{p_}={want}`: every caller that omits `{p_}` computes with another value "
+                 f"although neither the body of {f.name} nor any caller changed")
+    return not bad
+
+
 def formula_check(res, model: Model, qual: str, ref_src: str, what: str, opaque: Iterable[str] = (),
                   ignore_raises: bool = False, extern: Optional[Dict[str, object]] = None, rule: str = "R-FORMULA",
                   int_is_floor: bool = False, selfcls: Optional[str] = None, max_paths: int = 4000, aliases=None):
@@ -179,6 +205,7 @@ def formula_check(res, model: Model, qual: str, ref_src: str, what: str, opaque:
     if ignore_raises:
         p1, p2 = drop_raises(p1), drop_raises(p2)
     ok, why = same_function(p1, p2)
+    compare_defaults(res, model, f, rf, qual, what, rule)
     n = len(canon_paths(p1))
     res.ob(rule, f"{qual} == reference: {what} ({n} arms, inlined {sorted(set(ev1.inlined))[:6]})", f.loc(), ok=ok,
            detail="" if ok else why[:600])
